@@ -788,7 +788,15 @@ class BlobStorage(BlobStorageMixin):
         # We need to override the base storage's tpc_finish instead of
         # providing a _finish method because methods found on the proxied
         # object aren't rebound to the proxy
-        tid = self.__storage.tpc_finish(*arg, **kw)
+        try:
+            tid = self.__storage.tpc_finish(*arg, **kw)
+        except:  # noqa: E722 do not use bare 'except'
+            # A storage whose finish fails (the callback raised, say) may
+            # have rolled the transaction back and forgotten it; then our
+            # tpc_abort no longer recognises it.  Its blobs have to go.
+            if self.__storage.tpc_transaction() is None:
+                self._blob_tpc_abort()
+            raise
         self._blob_tpc_finish()
         return tid
 
